@@ -15,15 +15,26 @@ bpath = os.path.join(HERE, "bounds.json")
 bounds = json.load(open(bpath)) if os.path.exists(bpath) else {}
 pb = bounds.setdefault(pid, {})
 keep_out = {k: v for k, v in pb.get("outside_claim", {}).items() if "*" in k}
-slow, out = {}, dict(keep_out)
+slow, out, og = {}, dict(keep_out), {}
 for k, r in sorted(res.items()):
     if r["status"] == "proved":
         if r["wall_s"] > limit:
             slow[k] = round(r["wall_s"], 1)
     elif r["status"] == "inconclusive":
-        out[k] = "inconclusive on the pinned tree: " + (r.get("reason") or "")[:160]
+        goals = r.get("goals") or []
+        bad = [g["label"] for g in goals if g.get("verdict") in ("sat", "unknown")]
+        good = [g for g in goals if g.get("verdict") == "unsat"]
+        if goals and bad and good and len(bad) <= max(1, len(goals) // 2) and "exceeded" not in (r.get("reason") or ""):
+            og[k] = bad  # the rest of the family stays claimed
+            est = sum(g.get("s") or 0 for g in goals if g.get("verdict") == "unsat") + 0.15 * len(goals) + 0.5
+            if est > limit:
+                slow[k] = round(est, 1)
+        else:
+            out[k] = "inconclusive on the pinned tree: " + (r.get("reason") or "")[:160]
 pb["slow"] = slow
 pb["outside_claim"] = out
+pb["outside_goals"] = og
 json.dump(bounds, open(bpath, "w"), indent=1, sort_keys=True)
+print(pid, "outside_goals families:", len(og), "goals:", sum(len(v) for v in og.values()))
 print(pid, "quick:", sum(1 for r in res.values() if r["status"] == "proved") - len(slow), "slow:", len(slow), "outside:", len(out) - len(keep_out),
       "other:", [k for k, r in res.items() if r["status"] not in ("proved", "inconclusive")][:10])
